@@ -34,10 +34,13 @@ PP(s) ==
     [] s = "p.zz" -> <<"p", "zz">>          \* a missing submodule
     [] s = "p.b.x" -> <<"p", "b", "x">>     \* "module path" running through member x of p.b
     [] s = "p.a.x" -> <<"p", "a", "x">>
+    [] s = "p.a.y" -> <<"p", "a", "y">>
     [] s = "p.x" -> <<"p", "x">>
+    [] s = "p.a.x.y" -> <<"p", "a", "x", "y">>   \* ... and one level further: the walk has to CROSS member x
+    [] s = "p.b.x.y" -> <<"p", "b", "x", "y">>
     [] OTHER -> <<s>>
 
-PathStrs == Mods \cup {"zz", "p.zz", "p.b.x", "p.a.x", "p.x"}
+PathStrs == Mods \cup {"zz", "p.zz", "p.b.x", "p.a.x", "p.a.y", "p.x", "p.a.x.y", "p.b.x.y"}
 
 \* name of the pseudo member the visitor creates for `from s import *`
 StarName(s) ==
@@ -51,7 +54,10 @@ StarName(s) ==
     [] s = "p.zz" -> "p/zz/*"
     [] s = "p.b.x" -> "p/b/x/*"
     [] s = "p.a.x" -> "p/a/x/*"
+    [] s = "p.a.y" -> "p/a/y/*"
     [] s = "p.x" -> "p/x/*"
+    [] s = "p.a.x.y" -> "p/a/x/y/*"
+    [] s = "p.b.x.y" -> "p/b/x/y/*"
     [] OTHER -> "?/*"
 StarNames == {StarName(s) : s \in PathStrs}
 
